@@ -2,19 +2,20 @@ SPECIFICATION Spec
 CONSTANTS
  Elems <- E3
  TAU = 2
- Dur = 1
- FailSet = {}
- MaxTime = 4
+ Dur = 3
+ FailSet = {1}
+ MaxTime = 5
  Waits <- NoWaits
  CancelOf <- NoCancel
  Foreign = FALSE
- KindOf <- K_acf
- LoadOf <- L_acf
- Shutdowns = FALSE
- CancelAware = TRUE
+ KindOf <- AllCalls
+ LoadOf <- NoLoad
+ Shutdowns = TRUE
+ CancelAware = FALSE
  ClearInputs = TRUE
 INVARIANT Inv_C03
 INVARIANT Inv_C07
 INVARIANT Inv_C08
 INVARIANT DeliveredAtHorizon
 INVARIANT NoWaitStuck
+INVARIANT ShutdownTerminates
